@@ -69,20 +69,17 @@ pub enum CimSubModeNormal {
     PitInstructions = 4,
 }
 
-impl From<u8> for CimSubModeNormal {
-    fn from(value: u8) -> Self {
+impl TryFrom<u8> for CimSubModeNormal {
+    type Error = u8;
+
+    fn try_from(value: u8) -> Result<Self, Self::Error> {
         match value {
-            0 => Self::Normal,
-            1 => Self::WheelTemps,
-            2 => Self::WheelDamage,
-            3 => Self::LiveSettings,
-            4 => Self::PitInstructions,
-            other => {
-                unreachable!(
-                    "Unhandled CimSubModeNormal. Perhaps a programming error or protocol update? Found {}, expected 0-4.",
-                    other
-                )
-            },
+            0 => Ok(Self::Normal),
+            1 => Ok(Self::WheelTemps),
+            2 => Ok(Self::WheelDamage),
+            3 => Ok(Self::LiveSettings),
+            4 => Ok(Self::PitInstructions),
+            other => Err(other),
         }
     }
 }
@@ -122,23 +119,21 @@ pub enum CimSubModeGarage {
     Pass = 8,
 }
 
-impl From<u8> for CimSubModeGarage {
-    fn from(value: u8) -> Self {
+impl TryFrom<u8> for CimSubModeGarage {
+    type Error = u8;
+
+    fn try_from(value: u8) -> Result<Self, Self::Error> {
         match value {
-            0 => Self::Info,
-            1 => Self::Colours,
-            2 => Self::BrakeTC,
-            3 => Self::Susp,
-            4 => Self::Steer,
-            5 => Self::Drive,
-            6 => Self::Tyres,
-            7 => Self::Aero,
-            8 => Self::Pass,
-            other => {
-                unreachable!(
-                    "Unhandled CimSubModeGarage. Perhaps a programming error or protocol update? Found {}, expected 0-8", other
-                )
-            },
+            0 => Ok(Self::Info),
+            1 => Ok(Self::Colours),
+            2 => Ok(Self::BrakeTC),
+            3 => Ok(Self::Susp),
+            4 => Ok(Self::Steer),
+            5 => Ok(Self::Drive),
+            6 => Ok(Self::Tyres),
+            7 => Ok(Self::Aero),
+            8 => Ok(Self::Pass),
+            other => Err(other),
         }
     }
 }
@@ -184,10 +179,18 @@ impl BinRead for CimMode {
         let seltype = u8::read_options(reader, endian, ())?;
 
         let res = match discrim {
-            0 => Self::Normal(submode.into()),
+            0 => Self::Normal(
+                submode
+                    .try_into()
+                    .map_err(|_| binrw::Error::NoVariantMatch { pos })?,
+            ),
             1 => Self::Options,
             2 => Self::HostOptions,
-            3 => Self::Garage(submode.into()),
+            3 => Self::Garage(
+                submode
+                    .try_into()
+                    .map_err(|_| binrw::Error::NoVariantMatch { pos })?,
+            ),
             4 => Self::CarSelect,
             5 => Self::TrackSelect,
             6 => Self::ShiftU {
